@@ -752,10 +752,8 @@ class Ctx:
         body = fn.body
         s = strip(start)
         # the loop variable: a local with phi(const 0, rec + end)
-        il = None
-        for l, decl in enumerate(body.locals):
-            if decl.get("name") == "i":
-                il = l
+        from ..lib.cfgq import scan_offset_local
+        il = scan_offset_local(body)
         if il is None:
             return None
         defs = body.defs().get(il, [])
